@@ -360,6 +360,11 @@ class Terms:
                     return ("const", v.size)
                 if isinstance(v, StructConst) and e.attr in ("pack", "unpack", "unpack_from"):
                     return ("const", StructMethod(v, e.attr))
+            # a field of a record built in place: SessionKeys(a2c_key=x, c2a_key=y).a2c_key is x (NamedTuple / plain dataclass
+            # of the package without a hand-written __init__)
+            fv = _record_field(p, base, e.attr)
+            if fv is not None:
+                return fv
             return ("attr", base, e.attr)
         if isinstance(e, ast.Call):
             return self._call(cfg, nid, e, env, depth, guard)
@@ -496,6 +501,13 @@ class Terms:
                 return inner[1][1]
             if inner[0] == "const" and fn[2] == "encode" and isinstance(inner[1], str) and not args:
                 return ("const", inner[1].encode())
+        # b"".join((a, b, c)) / "".join([a, b]) of a display is a + b + c
+        if fn[0] == "attr" and fn[2] == "join" and fn[1] in (("const", b""), ("const", "")) and len(args) == 1 and not kwargs \
+                and args[0][0] in ("tuple", "list") and args[0][1] and not any(x[0] == "star" for x in args[0][1]):
+            acc = args[0][1][0]
+            for x in args[0][1][1:]:
+                acc = _binop("Add", acc, x)
+            return acc
         # struct.pack(<constant format>, a..) is Struct(<format>).pack(a..): ONE spelling of a struct packer
         if fn == ("glob", "struct.pack") and args and args[0][0] == "const" and isinstance(args[0][1], str) and not kwargs and not any(a[0] == "star" for a in args):
             fn, args = ("const", StructMethod(StructConst(args[0][1]), "pack")), args[1:]
@@ -664,6 +676,36 @@ def _binop(op, l, r) -> tuple:
     return ("binop", name, l, r)
 
 
+def _record_fields(p, cls_q: str):
+    """field names, in order, of a NamedTuple subclass or @dataclass of the package that has no __init__ / __new__ /
+    __post_init__ of its own; None for other classes"""
+    c = p.classes.get(cls_q)
+    if c is None or any(m in c.methods for m in ("__init__", "__new__", "__post_init__")):
+        return None
+    is_nt = any(b.endswith("NamedTuple") for b in c.bases)
+    is_dc = any((isinstance(d, ast.Name) and d.id == "dataclass") or (isinstance(d, ast.Attribute) and d.attr == "dataclass")
+                or (isinstance(d, ast.Call) and ((isinstance(d.func, ast.Name) and d.func.id == "dataclass") or (isinstance(d.func, ast.Attribute) and d.func.attr == "dataclass")))
+                for d in c.node.decorator_list)
+    if not (is_nt or is_dc) or (is_dc and len(c.bases) > 0 and c.bases != ["object"]):
+        return None
+    return [st.target.id for st in c.node.body if isinstance(st, ast.AnnAssign) and isinstance(st.target, ast.Name)]
+
+
+def _record_field(p, base, name: str):
+    if not (base[0] == "call" and len(base) >= 4 and base[1][0] == "glob" and base[1][1] in p.classes):
+        return None
+    fields = _record_fields(p, base[1][1])
+    if not fields or name not in fields or any(a[0] == "star" for a in base[2]):
+        return None
+    kw = dict(base[3])
+    if name in kw:
+        return kw[name]
+    i = fields.index(name)
+    if i < len(base[2]):
+        return base[2][i]
+    return None
+
+
 def _fstr(parts: tuple) -> tuple:
     """f-string term in one spelling: a plainly formatted part that is itself an f-string is spliced in
     (f"a{f'b{x}c'}d" = f"ab{x}cd"), adjacent literal parts are joined, and ONE part with several definitions makes several
@@ -830,6 +872,11 @@ def _struct_layout(fmt: str):
         return None
     out, off = [], 0
     for cnt, code in re.findall(r"(\d*)([a-zA-Z?])", fmt[1:]):
+        if code in ("s", "p"):
+            n = int(cnt) if cnt else 1  # ONE field of n bytes
+            out.append((off, n, code))
+            off += n
+            continue
         if code not in _STRUCT_SIZES:
             return None
         for _ in range(int(cnt) if cnt else 1):
@@ -870,6 +917,8 @@ def byte_field(t):
                 start = args[1][1]
             elif len(args) != 1:
                 return None
+        if code in ("s", "p"):
+            return base, start + off, size, "bytes", False  # a run of bytes, not an integer
         return base, start + off, size, (order if size > 1 else "any"), code.islower() and code != "?"
     if t[0] == "call" and t[1] in (("glob", "int.from_bytes"), ("attr", ("glob", "int"), "from_bytes")) and t[2]:
         kw = dict(t[3])
